@@ -217,7 +217,7 @@ type c18QStat struct {
 // c18JudgeAnswer compares one answer (version string + identity, or an error) with what the statement allows.
 // what names the interface ("get", "tags", "resolve") and becomes part of the signature.
 func c18JudgeAnswer(tb vt.TB, cs *c18Case, what string, ex c18Expect, q string, gotErr error, gotVersion, gotID string, ctx string) bool {
-	okIDs, okStrs := c18IDs(ex.OK), c18Strs(ex.OK)
+	okStrs := c18Strs(ex.OK)
 	desc := fmt.Sprintf("query %q (%s): ", q, ex.Class)
 	if gotErr != nil {
 		desc += fmt.Sprintf("error %q", gotErr)
@@ -253,11 +253,26 @@ func c18JudgeAnswer(tb vt.TB, cs *c18Case, what string, ex c18Expect, q string, 
 		}
 		return vt.Violation(tb, "C18:"+what+"/constraint/error-although-satisfiable", desc, cs)
 	}
+	// an answer is identified by the entry's identity where the interface returns the entry (get), by the tag
+	// string (tags), and for the lock file by the version string or its normalised spelling (v1.2 and 1.2.0 name
+	// the same indexed version; the statement speaks of versions there, not of strings)
+	same := func(v c18V) bool {
+		if gotID != "" {
+			return v.ID == gotID
+		}
+		if v.S == gotVersion {
+			return true
+		}
+		if what == "resolve" && v.V != nil {
+			if g, err := semver.NewVersion(gotVersion); err == nil && g.String() == v.V.String() {
+				return true
+			}
+		}
+		return false
+	}
 	good := false
-	if gotID != "" {
-		good = c18Contains(okIDs, gotID)
-	} else {
-		good = c18Contains(okStrs, gotVersion)
+	for _, v := range ex.OK {
+		good = good || same(v)
 	}
 	if good {
 		return false
@@ -273,9 +288,7 @@ func c18JudgeAnswer(tb vt.TB, cs *c18Case, what string, ex c18Expect, q string, 
 	}
 	inSat := false
 	for _, s := range ex.Sat {
-		if (gotID != "" && s.ID == gotID) || (gotID == "" && s.S == gotVersion) {
-			inSat = true
-		}
+		inSat = inSat || same(s)
 	}
 	if !inSat {
 		return vt.Violation(tb, "C18:"+what+"/constraint/answer-does-not-satisfy", desc, cs)
